@@ -1,8 +1,115 @@
 (* C19 - a saved fact store reloads to the same set of facts. *)
 From Coq Require Import List ZArith Bool.
-From MV Require Import Serde.SimpleColumn.
+From MV Require Import Serde.SimpleColumn Serde.SimpleColumnProofs.
 Import ListNotations.
 Open Scope Z_scope.
+
+(* A constant c is admissible on a line when its printed form is non-empty, has no
+   newline, does not end in CR, is shorter than the scanner's 64 KiB token limit
+   after name escaping, and parses back to c (the C08/C09 round trip):
+     const_ok c := print c <> [] /\ ~ In 10 (print c) /\ last (print c) 0 <> 13 /\
+                   Z.of_nat (length (esc_line fixed (print c))) < 65536 /\ parse (print c) = Some c.
+   A listed predicate e = ((symbol, arity), rows) is admissible (pred_ok) when the symbol is
+   non-empty without blank / newline, its header line is shorter than 64 KiB, arity <= 1024,
+   at most 2^32 rows, every row has `arity` admissible constants, and a zero-arity predicate
+   lists at most one fact. [ordered det S] is the order WriteTo emits (S itself without the
+   deterministic option; sorted by (arity, symbol) and (Atom.Hash, Atom.String) with it). *)
+
+(* read_into (write S) = S: for every store, plain / gzip / zstd (any pair of functions with
+   decompress (compress b) = b), deterministic or not, ReadInto performs exactly the Add calls
+   of the written facts, in the order written; and those are the facts of S. *)
+Theorem read_write_exact :
+  forall (const : Type) (const_eqb : const -> const -> bool) (print : const -> bytes)
+         (parse : bytes -> option const) (fhash : bytes -> list const -> Z)
+         (compress decompress : bytes -> bytes),
+    (forall b, decompress (compress b) = b) ->
+    forall (St : pstore const) (det : bool),
+      Forall (pred_ok const print parse) (ordered print fhash det St) ->
+      Z.of_nat (length St) <= max_num_preds ->
+      exists ls added,
+        write const print fhash fixed det St = Some ls /\
+        read_into const const_eqb parse fixed (scan_lines (decompress (compress (unlines ls)))) = Some added /\
+        added = facts_of (ordered print fhash det St) /\
+        (forall f, In f added <-> In f (facts_of St)).
+Proof.
+  intros const const_eqb print parse fhash compress decompress Hc St det F L.
+  destruct (read_write_exact_all const const_eqb print parse fhash St det F L) as [ls [W R]].
+  exists ls, (facts_of (ordered print fhash det St)). rewrite Hc.
+  split; [exact W|]. split; [exact R|]. split; [reflexivity|].
+  intro f. apply ordered_same_facts.
+Qed.
+Print Assumptions read_write_exact.
+
+(* the hypotheses are satisfiable by a store with a '%' name, a zero-arity fact, an empty
+   predicate and two columns (constants are their own printed form here) *)
+Definition ex_store : pstore bytes :=
+  [(([112], 2%nat), [[[47; 97; 37; 52; 49; 98]; [51]]; [[34; 120; 34]; [47; 43]]]);
+   (([122], 0%nat), [[]]); (([101], 1%nat), [])].
+Example read_write_exact_nonvacuous :
+  Forall (pred_ok bytes (fun c => c) (fun b => Some b)) (ordered (fun c => c) (fun _ _ => 0) true ex_store) /\
+  Z.of_nat (length ex_store) <= max_num_preds.
+Proof.
+  split; [|vm_compute; discriminate].
+  assert (A : forall c : bytes, c <> [] -> ~ In 10 c -> last c 0 <> 13 ->
+                Z.of_nat (length (esc_line fixed c)) < max_token ->
+                const_ok bytes (fun c => c) (fun b => Some b) c).
+  { intros c H1 H2 H3 H4. unfold const_ok. auto. }
+  vm_compute ordered.
+  repeat apply Forall_cons; try apply Forall_nil; unfold pred_ok, rows_ok; cbn [fst snd];
+    (split; [discriminate|]); (split; [simpl; intuition discriminate|]);
+    (split; [simpl; intuition discriminate|]); (split; [vm_compute; reflexivity|]);
+    (split; [vm_compute; discriminate|]); (split; [vm_compute; discriminate|]); split.
+  - intros r [<-|[]]. split; [reflexivity|constructor].
+  - intros _. simpl. auto.
+  - intros r [].
+  - discriminate.
+  - intros r [<-|[<-|[]]]; (split; [reflexivity|]);
+      repeat apply Forall_cons; try apply Forall_nil; apply A;
+      try discriminate; try (simpl; intuition discriminate); try (vm_compute; discriminate);
+      try (vm_compute; reflexivity).
+  - discriminate.
+Qed.
+
+(* One predicate block under a query pattern (the core of the lazy store): reading the
+   column-major block of `rows` with the filter FS of a query returns exactly the rows
+   that match the constants of the pattern, in order, and leaves the rest of the file.
+   Full statement of lazy_get_facts_exact, of which this is the proved part:
+     forall S det q ls, pred_ok on (ordered det S), NoDup (map fst S), length (snd q) = arity ->
+       write fixed det S = Some ls ->
+       exists lz, lz_new (unlines ls) = Some lz /\
+         lz_get_facts lz q = Some (filter (matches q) (facts_of (ordered det S)))
+   (remaining: the offset lemma 1 + n + sum count*arity over `locate`). *)
+Theorem lazy_get_facts_exact_partial :
+  forall (const : Type) (const_eqb : const -> const -> bool) (print : const -> bytes)
+         (parse : bytes -> option const)
+         (ar : nat) (FS : list (option const)) (rows : list (list const)) (rest : list bytes),
+    length FS = ar ->
+    (forall r, In r rows -> length r = ar /\ Forall (const_ok const print parse) r) ->
+    read_pred const const_eqb parse ar (Z.of_nat (length rows)) FS
+              (flat_map (fun j => map (fun r => cell const print fixed r j) rows) (seq 0 ar) ++ rest)
+    = Some (filter (args_match const const_eqb FS) rows, rest).
+Proof.
+  intros const const_eqb print parse ar FS rows rest H1 H2.
+  exact (read_pred_ok const const_eqb print parse ar FS rows rest H1 H2).
+Qed.
+Print Assumptions lazy_get_facts_exact_partial.
+
+(* deterministic_bytes - NOT proved in this round. Full statement:
+     forall S1 S2, NoDup (map fst S1) -> Permutation (map fst S1) (map fst S2) ->
+       (forall p r1 r2, In (p, r1) S1 -> In (p, r2) S2 -> NoDup r1 /\ Permutation r1 r2) ->
+       (Atom.String injective on the rows of each predicate) ->
+       write V true S1 = write V true S2
+   The order sorted by: predicates by (arity, symbol bytewise), facts by (Atom.Hash, Atom.String
+   bytewise). Checked on every deterministic case of the correspondence (bytes from a reordered
+   listing and from four in-memory store kinds must be equal). The proved ingredient: *)
+Theorem deterministic_bytes_partial :
+  forall (const : Type) (print : const -> bytes) (fhash : bytes -> list const -> Z)
+         (St : pstore const) (f : fact const),
+    In f (facts_of (ordered print fhash true St)) <-> In f (facts_of St).
+Proof.
+  intros. apply ordered_same_facts.
+Qed.
+Print Assumptions deterministic_bytes_partial.
 
 (* Concrete instance for the witnesses: a constant is its own printed form. *)
 Definition w_print (c : bytes) : bytes := c.
